@@ -6,7 +6,8 @@ results follow from LOADER AGREEMENT per format pair.
 proof:           Prop_C13.v — the four date formats agree (from C12); classic crop reader = YAML reader o converter
                  (CropParamModel, character level, any number type) with the known differences as hypotheses;
                  fixed-width soil reader = CSV soil reader on the two renderings of an abstract profile (SoilModel);
-                 text rotation reader = CSV rotation reader on the two renderings of an abstract rotation (RotaReaderModel)
+                 text rotation reader = CSV rotation reader on the two renderings of an abstract rotation (RotaReaderModel);
+                 text measurement reader = CSV measurement reader for every profile depth (MeasModel)
 correspondence:  the REAL ReadCropParamClassic / ReadCropParamYml / ConvertCropParamClassicToYml vs the models on the
                  bytes of every shipped crop file (classic and .yml) and of generated variants, every field of the
                  loaded state / record bit for bit
@@ -35,15 +36,17 @@ LEVEL_TEXT = ("Machine-checked proof (Coq) of loader agreement for the date form
               "parameter readers (classic fixed-column reader = YAML reader o shipped converter, for every "
               "well-formed classic file, any prior state, with the differences of the readers as explicit "
               "hypotheses), for the soil profile readers (fixed-width LoadSoil = LoadSoilCSV on the two renderings "
-              "of every abstract profile whose texts fit their columns) and for the crop rotation readers (text tokens "
-              "= CSV cells with empty cells kept, for every renderable rotation, date format and field); the crop, soil "
-              "and rotation models are run against the real readers/converter (the rotation reader through the arrays "
-              "the real Input leaves) on shipped files and on generated variants each run (bit-exact); "
+              "of every abstract profile whose texts fit their columns), for the crop rotation readers (text tokens "
+              "= CSV cells with empty cells kept, for every renderable rotation, date format and field) and for the "
+              "readers of the measured initial values (row -> per-layer values with the interval divisors, for every "
+              "profile depth); the crop, soil, rotation and measurement models are run against the real readers / "
+              "converter (the rotation reader through the arrays the real Input leaves) on shipped files and on "
+              "generated variants each run (bit-exact); "
               "every clause of the property is evaluated on the real binary by paired whole runs compared as bytes.")
-LEVEL_NOTE = ("partial proof: dates, crop parameter readers, soil readers and rotation readers (runs without automatic "
-              "management) are proved; the measurement and weather readers are NOT modelled here — these clauses are "
-              "covered by the paired-run oracle and the comparison of the state after Input only (generated "
-              "measurement sets / weather series each run; the weather loaders are modelled under C04). Trusted: Coq kernel/vm_compute, YAML codecs, python renderers (the soil renderings are "
+LEVEL_NOTE = ("partial proof: dates, crop parameter readers, soil readers, rotation readers and measurement readers (runs "
+              "without automatic management) are proved; the weather readers are NOT modelled here — the weather "
+              "clause is covered by the paired-run oracle only (generated series in the three layouts, with heights "
+              "line, sentinels, calm days, precipitation correction; the weather loaders are modelled under C04). Trusted: Coq kernel/vm_compute, YAML codecs, python renderers (the soil renderings are "
               "checked against the Coq renderers), harness/driver. The refutation witness C13_bbch_difference_refuted "
               "evaluates primitive floats; the other theorems are axiom-free.")
 TECHNIQUE = "Coq proof (character-level reader models, loader agreement) + bit-exact loaded-state correspondence + paired whole runs"
@@ -227,7 +230,7 @@ def correspond(ctx):
     c.dist["generated_variants_rejected_by_converter"] = conv_failed
     c.samples = ["%s %s" % (p[0], p[1]) for p in plan[:4] + plan[-3:]]
     c.notes.append("compared per case: every field of the crop state (369 floats, 25+ integers) or of the converted record, bit for bit")
-    c.notes.append("NOT modelled (paired runs only): measurement and weather readers")
+    c.notes.append("NOT modelled (paired runs only): weather readers")
     return c
 
 
@@ -511,9 +514,12 @@ def meas_correspond(ctx, c):
                 ls = (t if nm_ == "t" else cv).split(b"\n"); ls.insert(3, b"")
                 if nm_ == "t": t = b"\n".join(ls)
                 else: cv = b"\n".join(ls)
+        if k % 8 == 6:        # malformed: a value that is no number / a row cut after the date
+            t = t.replace(rows[1][1][5].encode() if len(rows) > 1 else b"0.", b"0,5x" if False else b"x5", 1)
+            cv = cv.replace(rows[1][1][5].encode() if len(rows) > 1 else b"0.", b"x5", 1)
         tp, cp = os.path.join(wd, "m%d.txt" % k), os.path.join(wd, "m%d.csv" % k)
         open(tp, "wb").write(t); open(cp, "wb").write(cv)
-        if k % 6 != 3:
+        if k % 6 != 3 and k % 8 != 6:
             plan.append(("render", "measurement set %d" % k, (t, cv), None, F.endit_rows(P, fmt, sep), None))
         for data, path, csv in ((t, tp, False), (cv, cp, True)):
             jobs.append({"id": len(jobs), "file": path, "csv": csv, "ident": ident, "n": n, "fmt": F.DATEFMTS.index(fmt), "cent": 60,
